@@ -360,6 +360,12 @@ func (e *Exec) evalIdent(name string, env *Env) Val {
 			return env.result.Tup[i]
 		}
 	}
+	// r0, r1, ...: components of a tuple-valued variable r (results of a lemma's 'call ... -> r')
+	if n := len(name); n > 1 && name[n-1] >= '0' && name[n-1] <= '9' {
+		if v, ok := env.vars[name[:n-1]]; ok && v.Tup != nil && int(name[n-1]-'0') < len(v.Tup) {
+			return v.Tup[name[n-1]-'0']
+		}
+	}
 	if c, ok := e.P.Spec.Consts[name]; ok {
 		x, err := ParseExpr(c)
 		if err != nil {
@@ -924,12 +930,25 @@ func (e *Exec) evalCall(x ECall, env *Env) Val {
 	case "visited":
 		// the visited set of the (unique) map iteration of the enclosing loop
 		if env.fr != nil {
-			for _, name := range env.fr.iters {
-				srt := e.heapSorts[name]
-				return Val{T: e.get(env.st, name, srt), S: srt}
+			// the iterator advanced in the header of the loop the clause belongs to; otherwise the only one of the function
+			if env.block != nil {
+				for _, ins := range env.block.Instrs {
+					if nx, ok := ins.(*ssa.Next); ok {
+						if name, ok := env.fr.iters[nx.Iter]; ok {
+							srt := e.heapSorts[name]
+							return Val{T: e.get(env.st, name, srt), S: srt}
+						}
+					}
+				}
+			}
+			if len(env.fr.iters) == 1 {
+				for _, name := range env.fr.iters {
+					srt := e.heapSorts[name]
+					return Val{T: e.get(env.st, name, srt), S: srt}
+				}
 			}
 		}
-		e.unsupported("visited() outside a map range loop")
+		e.unsupported("visited() outside a map range loop (or ambiguous: several map loops and the clause is not a loop invariant)")
 	case "domof":
 		v := arg(0)
 		if v.Ty != nil {
